@@ -568,13 +568,14 @@ class ProgGen(Gen):
         return out
 
     BIG_SIZES = [500, 520, 520, 1024, 1024, 2000, 5000, 5000, 8190, 8200]
+    big_sizes = None
 
     def s_big(self, cx):
         """large values (4 KB … 64 KB): every copy is a snapshot — through a pointer and into an interface, by-value parameter
         and result, captured by a closure, array assignment"""
         r = self.rng
         P = self.P
-        n = r.choice(self.BIG_SIZES)
+        n = r.choice(self.big_sizes or self.BIG_SIZES)
         K = tint(self.kind())
         I64 = tint('i64')
         key = '_big_%d' % n
@@ -806,7 +807,8 @@ class ProgGen(Gen):
                 if st:
                     body += st
                     continue
-            if c < 0.215 and not hasattr(self, '_big_done'):
+            if self.big_sizes and not hasattr(self, '_big_done') and self.budget < 40:
+                # large values are expensive to compile (LLVM 14 takes minutes at -O2): only where the caller asks for them
                 self._big_done = True
                 st = self.s_big(cx)
                 if st:
@@ -980,6 +982,10 @@ def relayout(P, npk):
         o.pkg = m[o.level]
 
 
-def generate(seed, idx):
+def generate(seed, idx, big_sizes=None):
+    """big_sizes: element counts of the [n]int64 buffers of the large-value group this program should contain (None: none)"""
     g = ProgGen(random.Random(seed), idx, 4)
-    return g.program()
+    g.big_sizes = big_sizes
+    P = g.program()
+    P.big = bool(big_sizes) and 'large-values' in P.features
+    return P
